@@ -1455,7 +1455,7 @@ std::ostream& expression_t::print(std::ostream& os, bool old) const
         os << ')';
         break;
 
-    case RATE: get(0).print(os, old) << '\''; break;
+    case RATE: embrace(os, old, get(0), precedence) << '\''; break;
 
     case EF:
         os << "E<> ";
